@@ -387,9 +387,13 @@ def c07(ctx):
     ev3 = ctx.run_xcv(extra)
     v1 = judge(ctx, events, "walk", cfgev)
     v2 = judge(ctx, ev2 + ev3, "purity", cfgev)
+    # the executions of the repository's own known-answer tests (all four entry points per vector), recorded
+    # through the LD_PRELOAD shim against the fresh library and judged by the same trace specification
+    ev4, ran = recorded_repo_tests(ctx, KA_CHEAP if quick else KA_ALL)
+    v3 = judge(ctx, ev4, "repotests", cfgev) if ev4 else None
     attribute(ctx)
-    cov = mc_coverage(ctx, st, tr, [v1, v2], events + ev2 + ev3,
-                      {"behaviours_replayed": len(behs), "requests_through_all_entry_points": nreq,
+    cov = mc_coverage(ctx, st, tr, [v1, v2] + ([v3] if v3 else []), events + ev2 + ev3,
+                      {"behaviours_replayed": len(behs), "requests_through_all_entry_points": nreq, "repository_tests_recorded": ran,
                        "predicates": ["Result (same request => same string, across entry points/history/alignment/fill)"]})
     return "model_checking", cov, ASSUME_COMMON
 
@@ -2032,3 +2036,53 @@ def c08(ctx):
                                       "AsIfAlone on real schedules (learned function)", "TSan reports"]})
     return "model_checking", cov, ["real schedules are sampled; the exhaustive part is on the model, whose only code-dependent input (footprints) is measured",
                                    "non-interference: calls that write no shared location are equivalent to some sequential order"]
+
+
+# ============================================================================= the repository's own tests, recorded
+KA_CHEAP = ["ka-md5crypt", "ka-descrypt", "ka-bigcrypt", "ka-bsdicrypt", "ka-nt", "ka-sha1crypt", "ka-sha256crypt", "badsalt", "checksalt",
+            "special-char-salt", "short-outbuf", "crypt-badargs"]
+KA_ALL = KA_CHEAP + ["ka-sha512crypt", "ka-sunmd5", "ka-bcrypt", "ka-bcrypt-a", "ka-bcrypt-x", "ka-bcrypt-y", "ka-yescrypt", "ka-scrypt", "ka-gost-yescrypt"]
+PAD = {"al": 0, "rz": 1, "leakobj": 0, "sw": [], "led": [], "nreq": 0, "liveheap": 0, "livemap": 0, "badfree": 0, "wipes": 0, "wiped": 0,
+       "leakfree": 0, "leakunmap": 0, "stackhits": 0, "hlive": 0}
+
+
+def recorded_repo_tests(ctx, names, flavour="hooks"):
+    """Run the repository's own (already built) test programs against the fresh library under the LD_PRELOAD
+    recorder; returns the recorded API calls as TraceXCrypt events (empty if the test programs are absent)."""
+    b = ctx.build(flavour)
+    rec = os.path.join(b, "preload.so")
+    if not os.path.exists(rec):
+        r = subprocess.run(["gcc", "-O1", "-g", "-shared", "-fPIC", "-o", rec, os.path.join(vlib.VERIF, "harness", "preload.c"), "-ldl"], capture_output=True, text=True)
+        if r.returncode != 0:
+            raise Broken("preload recorder did not build: " + r.stderr[-800:])
+    link = os.path.join(b, "libcrypt.so.1")
+    if not os.path.exists(link):
+        os.symlink("libxcv.so", link)
+    events, ran = [], []
+    for t in names:
+        exe = os.path.join(vlib.REPO, "test", ".libs", t)
+        if not os.path.exists(exe):
+            continue
+        outp = os.path.join(ctx.dir, "pre_%s.ndjson" % t)
+        if os.path.exists(outp):
+            os.unlink(outp)
+        try:
+            subprocess.run([exe], capture_output=True, timeout=600,
+                           env=dict(os.environ, LD_PRELOAD=rec, LD_LIBRARY_PATH=b, XCV_PRELOAD_OUT=outp))
+        except subprocess.TimeoutExpired:
+            continue
+        if not os.path.exists(outp):
+            continue
+        evs = []
+        for x in open(outp):
+            try:
+                e = json.loads(x)
+            except ValueError:
+                continue
+            if "ph" in e:
+                for k, v in PAD.items():
+                    e.setdefault(k, v)
+            evs.append(e)
+        events += [{"e": "Reset"}] + evs
+        ran.append((t, len(evs)))
+    return events, ran
